@@ -297,7 +297,7 @@ class Explorer:
         self.max_depth = max_depth
         self.cache = {}
 
-    def run(self, qualname, setup, summaries=None, key=None, no_inline=(), hooks=None, models=None):
+    def run(self, qualname, setup, summaries=None, key=None, no_inline=(), hooks=None, models=None, unroll_while=0):
         from .rules import sysz as _sysz
         _sysz._PROG["prog"] = self.prog
         ck = (qualname, key)
@@ -307,6 +307,7 @@ class Explorer:
         I.no_inline |= set(no_inline)
         if hooks:
             I.method_hooks.update(hooks)
+        I.unroll_while = unroll_while
         res = I.explore(qualname, setup)
         if self.report is not None:
             self.report.absorb_stats(I)
